@@ -4,7 +4,8 @@
 
 package scanner
 
-//@ pred wf_scanner(r) = r != nil && r.store != nil && r.coder != nil && r.metricCli != nil && r.compactHistories != nil && is_compact_key(r.config.CompactKey)
+// (the last conjunct: the expiry prefix handed to the scanner, when set, is the events directory of the key space -- C17)
+//@ pred wf_scanner(r) = r != nil && r.store != nil && r.coder != nil && r.metricCli != nil && r.compactHistories != nil && is_compact_key(r.config.CompactKey) && (len(r.config.EventsPrefix) == 0 || bytes_eq(r.config.EventsPrefix, events_dir))
 
 // ---- result receivers (interface contract; the concrete receivers are verified under C03/C13) ----
 // ghost view of what a receiver has been given: out_n items (user key, value, revision);
@@ -187,7 +188,7 @@ package scanner
 //@ func (*worker).compactKey(key, rawKey, rev) (err)
 //@   props C17 C07
 //@   requires w != nil && w.store != nil && w.metricCli != nil
-//@   requires [deletes-only-dead-or-superseded-versions] (w.compact && is_rec_kr(it_pos-1, rawKey, rev) && rev != 0 && rev <= w.revision && dead(it_pos-1)) || (w.compact && is_rec_kr(lastkept(it_pos-1), rawKey, rev) && rev != 0 && rec_uk[lastkept(it_pos-1)] == rec_uk[it_pos-1] && rec_rev[lastkept(it_pos-1)] < rec_rev[it_pos-1] && rec_rev[it_pos-1] <= w.revision) || expiry_case(w, rawKey, rev)
+//@   requires@C07,C17 [deletes-only-dead-or-superseded-versions] (w.compact && is_rec_kr(it_pos-1, rawKey, rev) && rev != 0 && rev <= w.revision && dead(it_pos-1)) || (w.compact && is_rec_kr(lastkept(it_pos-1), rawKey, rev) && rev != 0 && rec_uk[lastkept(it_pos-1)] == rec_uk[it_pos-1] && rec_rev[lastkept(it_pos-1)] < rec_rev[it_pos-1] && rec_rev[it_pos-1] <= w.revision) || expiry_case(w, rawKey, rev)
 //@   modifies inferred:(*worker).compactKey
 //@   ensures [at-most-one-delete] dels == old(dels) || dels == old(dels)+1
 //@   ensures [skipped-keys-are-left-alone] old(len(w.lastCompactFailedRawKey) > 0 && bytes_eq(w.lastCompactFailedRawKey, rawKey)) ==> dels == old(dels) && err == nil
@@ -196,7 +197,7 @@ package scanner
 //@ func (*worker).compactCurrent(iter, rawKey, rev) (err)
 //@   props C17 C07
 //@   requires w != nil && w.store != nil && w.metricCli != nil
-//@   requires [index-removed-only-when-it-marks-a-deletion-at-or-below-R] (w.compact && 1 <= it_pos && it_pos <= rec_n && rec_rev[it_pos-1] == 0 && len(rec_val[it_pos-1]) == 9 && be64_of(rec_val[it_pos-1]) <= w.revision) || expiry_case(w, rawKey, rev)
+//@   requires@C07,C17 [index-removed-only-when-it-marks-a-deletion-at-or-below-R] (w.compact && 1 <= it_pos && it_pos <= rec_n && rec_rev[it_pos-1] == 0 && len(rec_val[it_pos-1]) == 9 && be64_of(rec_val[it_pos-1]) <= w.revision) || expiry_case(w, rawKey, rev)
 //@   modifies inferred:(*worker).compactCurrent
 //@   ensures [at-most-one-compare-and-delete] dels == old(dels) || dels == old(dels)+1
 //@   ensures [skipped-keys-are-left-alone] old(len(w.lastCompactFailedRawKey) > 0 && bytes_eq(w.lastCompactFailedRawKey, rawKey)) ==> dels == old(dels) && err == nil
@@ -240,22 +241,21 @@ package scanner
 //@   nosafety C08
 //@   requires [floor-checked] w.compact || !floor_set || floor <= w.revision
 //@   requires w != nil && w.store != nil && w.Coder != nil && w.metricCli != nil && receiver != nil
-//@   requires [ascending-interval] bytes_cmp(w.partition.Start, w.partition.End) < 0
 //@   requires [events-prefix-is-the-events-dir] len(w.eventsPrefix) == 0 || bytes_eq(w.eventsPrefix, events_dir)
 //@   requires [expiry-only-while-compacting] !w.compact ==> w.timeoutRevision == 0
 //@   modifies inferred:(*worker).run
-//@   ensures [unlimited-read-is-the-snapshot] !w.compact && err == nil && out_limit <= 0 ==> out_n == cnt(rec_n) && count == out_n && forall(i, 0 <= i && i < rec_n && emitted(i, w), is_rec(i, out_key[cnt(i)], out_val[cnt(i)], out_rev[cnt(i)]))
-//@   ensures [limited-read-is-a-prefix-of-the-snapshot] !w.compact && err == nil && out_limit > 0 ==> out_n <= out_limit && out_n <= cnt(rec_n) && (out_n < out_limit ==> out_n == cnt(rec_n)) && forall(i, 0 <= i && i < rec_n && emitted(i, w) && cnt(i) < out_n, is_rec(i, out_key[cnt(i)], out_val[cnt(i)], out_rev[cnt(i)]))
+//@   ensures@C03 [unlimited-read-is-the-snapshot] !w.compact && err == nil && out_limit <= 0 ==> out_n == cnt(rec_n) && count == out_n && forall(i, 0 <= i && i < rec_n && emitted(i, w), is_rec(i, out_key[cnt(i)], out_val[cnt(i)], out_rev[cnt(i)]))
+//@   ensures@C03 [limited-read-is-a-prefix-of-the-snapshot] !w.compact && err == nil && out_limit > 0 ==> out_n <= out_limit && out_n <= cnt(rec_n) && (out_n < out_limit ==> out_n == cnt(rec_n)) && forall(i, 0 <= i && i < rec_n && emitted(i, w) && cnt(i) < out_n, is_rec(i, out_key[cnt(i)], out_val[cnt(i)], out_rev[cnt(i)]))
 // cnt(i): number of emitted records among the first i; lastvis(i): index of the last record among the
 // first i that is visible at the read revision (-1: none). Their defining recursions are used
 // through the instances the proof needs (at the current position and at the previous record).
 //@   loop 0 assume [dead-def-at-previous-and-here] (lastvis(it_pos) >= 0 ==> dead(lastvis(it_pos)) == bytes_eq(rec_val[lastvis(it_pos)], w.tombstone)) && (it_pos < rec_n ==> dead(it_pos) == bytes_eq(rec_val[it_pos], w.tombstone))
-//@   loop 0 assume [expired-def-here] it_pos < rec_n ==> expired(it_pos) == (!native_ttl && w.timeoutRevision != 0 && len(w.eventsPrefix) > 0 && has_prefix(uk_of(it_pos), events_dir) && ite(rec_rev[it_pos] == 0, be64_of(rec_val[it_pos]) <= w.timeoutRevision, rec_rev[it_pos] <= w.timeoutRevision))
-//@   loop 0 assume [lastkept-def-here] lastkept(0) == -1 && -1 <= lastkept(it_pos) && lastkept(it_pos) < it_pos && (it_pos < rec_n ==> lastkept(it_pos+1) == ite(!expired(it_pos) && rec_rev[it_pos] <= w.revision && !(rec_rev[it_pos] == 0 && len(rec_val[it_pos]) == 9 && be64_of(rec_val[it_pos]) > w.revision), it_pos, lastkept(it_pos)))
-//@   loop 0 assume [cnt-def-here] cnt(0) == 0 && (it_pos < rec_n ==> cnt(it_pos+1) == cnt(it_pos)+ite(emitted(it_pos, w), 1, 0))
-//@   loop 0 assume [cnt-def-at-previous] lastvis(it_pos) >= 0 ==> cnt(lastvis(it_pos)+1) == cnt(lastvis(it_pos))+ite(emitted(lastvis(it_pos), w), 1, 0)
-//@   loop 0 assume [cnt-monotone] forall(i, 0 <= i && i <= rec_n, cnt(i) >= 0 && cnt(i) <= i && forall(k, i <= k && k <= rec_n, cnt(i) <= cnt(k)))
-//@   loop 0 assume [cnt-strict-after-emitted] forall(i, 0 <= i && i < rec_n && emitted(i, w), forall(k, i < k && k <= rec_n, cnt(i) < cnt(k)))
+//@   loop 0 assume@C07 [expired-def-here] it_pos < rec_n ==> expired(it_pos) == (!native_ttl && w.timeoutRevision != 0 && len(w.eventsPrefix) > 0 && has_prefix(uk_of(it_pos), events_dir) && ite(rec_rev[it_pos] == 0, be64_of(rec_val[it_pos]) <= w.timeoutRevision, rec_rev[it_pos] <= w.timeoutRevision))
+//@   loop 0 assume@C07 [lastkept-def-here] lastkept(0) == -1 && -1 <= lastkept(it_pos) && lastkept(it_pos) < it_pos && (it_pos < rec_n ==> lastkept(it_pos+1) == ite(!expired(it_pos) && rec_rev[it_pos] <= w.revision && !(rec_rev[it_pos] == 0 && len(rec_val[it_pos]) == 9 && be64_of(rec_val[it_pos]) > w.revision), it_pos, lastkept(it_pos)))
+//@   loop 0 assume@C03 [cnt-def-here] cnt(0) == 0 && (it_pos < rec_n ==> cnt(it_pos+1) == cnt(it_pos)+ite(emitted(it_pos, w), 1, 0))
+//@   loop 0 assume@C03 [cnt-def-at-previous] lastvis(it_pos) >= 0 ==> cnt(lastvis(it_pos)+1) == cnt(lastvis(it_pos))+ite(emitted(lastvis(it_pos), w), 1, 0)
+//@   loop 0 assume@C03 [cnt-monotone] forall(i, 0 <= i && i <= rec_n, cnt(i) >= 0 && cnt(i) <= i && forall(k, i <= k && k <= rec_n, cnt(i) <= cnt(k)))
+//@   loop 0 assume@C03 [cnt-strict-after-emitted] forall(i, 0 <= i && i < rec_n && emitted(i, w), forall(k, i < k && k <= rec_n, cnt(i) < cnt(k)))
 //@   loop 0 assume [lastvis-def-here] lastvis(0) == -1 && (it_pos < rec_n ==> lastvis(it_pos+1) == ite(rec_rev[it_pos] <= w.revision, it_pos, lastvis(it_pos)))
 //@   loop 0 assume [lastvis-range] -1 <= lastvis(it_pos) && lastvis(it_pos) < it_pos && (lastvis(it_pos) >= 0 ==> rec_rev[lastvis(it_pos)] <= w.revision) && forall(i, lastvis(it_pos) < i && i < it_pos, rec_rev[i] > w.revision)
 //@   loop 0 invariant [position] 0 <= it_pos && it_pos <= rec_n && rec_n <= 0x1000000000000 && err == nil
@@ -265,37 +265,55 @@ package scanner
 //@   loop 0 invariant [window-hints] pair_hint(lastvis(it_pos), it_pos) && pair_hint(it_pos, lastvis(it_pos)) && pair_hint(lastvis(it_pos), lastvis(it_pos)+1) && pair_hint(lastvis(it_pos)+1, it_pos)
 //@   loop 0 invariant [current-is-well-formed] it_pos < rec_n ==> is_internal_key(rec_key[it_pos]) && rec_rev[it_pos] == key_rev(rec_key[it_pos])
 // one iteration: an append happens exactly when the previous record is emitted
-//@   loop 0 step_lemma [append-needs-a-previous-record] !w.compact && out_n != head(out_n) ==> head(lastvis(it_pos)) >= 0 && out_n == head(out_n)+1
-//@   loop 0 step_lemma [why-appended] !w.compact && out_n == head(out_n)+1 ==> it_pos == head(it_pos)+1 && rec_rev[head(it_pos)] <= w.revision && rec_uk[head(it_pos)] != rec_uk[head(lastvis(it_pos))] && rec_rev[head(lastvis(it_pos))] != 0 && !dead(head(lastvis(it_pos)))
-//@   loop 0 step_lemma [appended-record-is-emitted] !w.compact && out_n == head(out_n)+1 ==> cnt(head(lastvis(it_pos))+1) == cnt(head(lastvis(it_pos)))+1
-//@   loop 0 step_lemma [why-kept] !w.compact && out_n == head(out_n) && head(lastvis(it_pos)) >= 0 && it_pos == head(it_pos)+1 && rec_rev[head(it_pos)] <= w.revision ==> rec_uk[head(it_pos)] == rec_uk[head(lastvis(it_pos))] || rec_rev[head(lastvis(it_pos))] == 0 || dead(head(lastvis(it_pos)))
-//@   loop 0 step_lemma [kept-record-is-not-emitted] !w.compact && out_n == head(out_n) && head(lastvis(it_pos)) >= 0 && it_pos == head(it_pos)+1 && rec_rev[head(it_pos)] <= w.revision ==> cnt(head(lastvis(it_pos))+1) == cnt(head(lastvis(it_pos)))
-//@   loop 0 invariant [previous-is-the-last-visible-record] !w.compact ==> ite(lastvis(it_pos) < 0, prevRevision == 0, is_rec(lastvis(it_pos), prevUserKey, prevValue, prevRevision))
-//@   loop 0 invariant [previous-while-compacting] w.compact ==> ite(lastkept(it_pos) < 0, prevRevision == 0, is_rec(lastkept(it_pos), prevUserKey, prevValue, prevRevision)) && pair_hint(lastkept(it_pos), it_pos) && pair_hint(it_pos, lastkept(it_pos))
-//@   loop 0 invariant [emitted-so-far] !w.compact ==> out_n == cnt(ite(lastvis(it_pos) < 0, 0, lastvis(it_pos))) && count == out_n && cnt(it_pos) == cnt(lastvis(it_pos)+1)
-//@   loop 0 invariant [within-the-limit] !w.compact && out_limit > 0 ==> out_n <= out_limit
-//@   loop 0 invariant [content-so-far] !w.compact ==> forall(i, 0 <= i && i < lastvis(it_pos) && emitted(i, w), is_rec(i, out_key[cnt(i)], out_val[cnt(i)], out_rev[cnt(i)]))
+//@   loop 0 step_lemma@C03 [append-needs-a-previous-record] !w.compact && out_n != head(out_n) ==> head(lastvis(it_pos)) >= 0 && out_n == head(out_n)+1
+//@   loop 0 step_lemma@C03 [appended-at-a-visible-record] !w.compact && out_n == head(out_n)+1 ==> it_pos == head(it_pos)+1 && rec_rev[head(it_pos)] <= w.revision
+//@   loop 0 step_lemma@C03 [appended-on-a-key-change] !w.compact && out_n == head(out_n)+1 ==> rec_uk[head(it_pos)] != rec_uk[head(lastvis(it_pos))]
+//@   loop 0 step_lemma@C03 [appended-record-is-a-live-version] !w.compact && out_n == head(out_n)+1 ==> rec_rev[head(lastvis(it_pos))] != 0 && !dead(head(lastvis(it_pos)))
+//@   loop 0 step_lemma@C03 [appended-record-is-emitted] !w.compact && out_n == head(out_n)+1 ==> cnt(head(lastvis(it_pos))+1) == cnt(head(lastvis(it_pos)))+1
+//@   loop 0 step_lemma@C03 [why-kept] !w.compact && out_n == head(out_n) && head(lastvis(it_pos)) >= 0 && it_pos == head(it_pos)+1 && rec_rev[head(it_pos)] <= w.revision ==> rec_uk[head(it_pos)] == rec_uk[head(lastvis(it_pos))] || rec_rev[head(lastvis(it_pos))] == 0 || dead(head(lastvis(it_pos)))
+//@   loop 0 step_lemma@C03 [kept-record-is-not-emitted] !w.compact && out_n == head(out_n) && head(lastvis(it_pos)) >= 0 && it_pos == head(it_pos)+1 && rec_rev[head(it_pos)] <= w.revision ==> cnt(head(lastvis(it_pos))+1) == cnt(head(lastvis(it_pos)))
+//@   loop 0 invariant@C03 [previous-is-the-last-visible-record] !w.compact ==> ite(lastvis(it_pos) < 0, prevRevision == 0, is_rec(lastvis(it_pos), prevUserKey, prevValue, prevRevision))
+//@   loop 0 invariant@C07 [previous-while-compacting] w.compact ==> ite(lastkept(it_pos) < 0, prevRevision == 0, is_rec(lastkept(it_pos), prevUserKey, prevValue, prevRevision)) && pair_hint(lastkept(it_pos), it_pos) && pair_hint(it_pos, lastkept(it_pos))
+//@   loop 0 invariant@C03 [emitted-so-far] !w.compact ==> out_n == cnt(ite(lastvis(it_pos) < 0, 0, lastvis(it_pos))) && count == out_n && cnt(it_pos) == cnt(lastvis(it_pos)+1)
+//@   loop 0 invariant@C03 [within-the-limit] !w.compact && out_limit > 0 ==> out_n <= out_limit
+//@   loop 0 invariant@C03 [content-so-far] !w.compact ==> forall(i, 0 <= i && i < lastvis(it_pos) && emitted(i, w), is_rec(i, out_key[cnt(i)], out_val[cnt(i)], out_rev[cnt(i)]))
+
+// what a worker needs before it scans (the preconditions of run), as one predicate so that the
+// links scan -> goroutine -> retry wrapper -> retry closure -> run each carry it
+//@ pred worker_ready(w, receiver) = w != nil && w.store != nil && w.Coder != nil && w.metricCli != nil && receiver != nil && (len(w.eventsPrefix) == 0 || bytes_eq(w.eventsPrefix, events_dir)) && (!w.compact ==> w.timeoutRevision == 0)
 
 //@ func (*worker).runWithBackoffRetry(ctx, receiver) (count, err)
-//@   props C08
+//@   props C03 C07 C08
 //@   nosafety
 //@   modifies inferred:(*worker).runWithBackoffRetry
 //@   requires [floor-checked] w.compact || !floor_set || floor <= w.revision
+//@   requires [ready] worker_ready(w, receiver)
+
+//@ func (*worker).runWithBackoffRetry$1() (done, err)
+//@   props C03 C07 C08
+//@   nosafety
+//@   modifies inferred:(*worker).runWithBackoffRetry$1
+//@   requires [floor-checked] w.compact || !floor_set || floor <= w.revision
+//@   requires [ready] worker_ready(w, receiver)
+//@   ensures [requires-stable] (w.compact || !floor_set || floor <= w.revision) && worker_ready(w, receiver)
 
 //@ func newWorker(conf, store, coder, metricCli) (w)
-//@   props C08
-//@   ensures [fields] w != nil && fresh(w) && w.revision == conf.revision && w.compact == conf.compact && w.tso == conf.tso && w.timeoutRevision == conf.timeoutRevision && w.store == store && w.eventsPrefix == conf.eventsPrefix
+//@   props C03 C07 C08
+//@   ensures [fields] w != nil && fresh(w) && w.revision == conf.revision && w.compact == conf.compact && w.tso == conf.tso && w.timeoutRevision == conf.timeoutRevision && w.store == store && w.eventsPrefix == conf.eventsPrefix && w.Coder == coder && w.metricCli == metricCli && w.tombstone == conf.tombstone && w.partition == conf.partition
 
 //@ func (*scanner).scan$1(idx)
-//@   props C08
+//@   props C03 C07 C08
 //@   nosafety
 //@   modifies inferred:(*scanner).scan$1
 //@   requires [floor-checked] compact || !floor_set || floor <= revision
+//@   requires [scanner] wf_scanner(r) && store != nil && receiver != nil
+//@   requires [expiry-only-while-compacting] !compact ==> timeoutRevision == 0
 
 //@ func (*scanner).scan(ctx, start, end, revision, compact, receiver) (count, err)
-//@   props C08
+//@   props C03 C07 C08
 //@   nosafety
 //@   requires wf_scanner(r) && !batch_open
+//@   requires [receiver] receiver != nil
 //@   modifies inferred:(*scanner).scan  ghost.bw_n ghost.bw_kind ghost.bw_key ghost.bw_val ghost.bw_ttl ghost.commits ghost.last_batch ghost.last_err ghost.batch_open ghost.floor ghost.floor_set
 //@   ensures [floor-monotone] old(floor_set) ==> floor_set && floor >= old(floor)
 //@   ensures [read-leaves-floor] !compact ==> floor == old(floor) && floor_set == old(floor_set)
